@@ -15,6 +15,7 @@ from .. import pathq
 from ..oblig import implied_ge
 
 EXPLANATION = __doc__
+WITNESS = ['C07']
 NOT_DECIDED = "payload byte equality end to end; envelopes through multi-hop chains (follows from C09/C15 + these)"
 ASSUMPTIONS = ["VecDeque::push_front/pop_front/split_off semantics", "SinkExt::send writes the item it is given"]
 RULES = {
@@ -44,7 +45,7 @@ def msg_mutations(p, pred, upto=None):
     out = []
     evs = p.events if upto is None else p.events[:upto]
     for i, ev in enumerate(evs):
-        if ev.kind == "call" and ev.extra != "inlined" and short(ev.name) in MUTATORS and "ZmqMessage" in ev.name and ev.args and pred(ev.args[0]):
+        if ev.kind == "call" and short(ev.name) in MUTATORS and "ZmqMessage" in ev.name and ev.args and pred(ev.args[0]):
             out.append((i, ev))
     return out
 
